@@ -172,5 +172,5 @@ PLANS = {
 
 # C08 thorough additionally runs the registry family on a release build of the L1 harness (no debug_assert ping)
 PLANS["C08"]["engines"] = ["l1", "mt", "l1r"]
-PLANS["C08"]["quick"]["l1r"] = []
+PLANS["C08"]["quick"]["l1r"] = [("registry", 16000)]
 PLANS["C08"]["thorough"]["l1r"] = [("registry", 600000), ("svckeep", 60000)]
